@@ -62,8 +62,13 @@ pub proof fn lemma_whole_string_anchoring(multiline: bool)
 fn pattern_to_regex_str(pattern: &str, enable_extended_globbing: bool) -> (r: Result<String, error::Error>)
     ensures match r { Ok(s) => translate_spec(pattern@, enable_extended_globbing) == Ok::<Seq<char>, error::Error>(s@), Err(e) => translate_spec(pattern@, enable_extended_globbing) == Err::<Seq<char>, error::Error>(e) }
 { unimplemented!() }
+// sibling helper of patterns.rs (delegates to the PEG grammar): abstract
+pub uninterp spec fn requires_expansion_spec(s: Seq<char>, ext: bool) -> bool;
+#[verifier::external_body]
+fn requires_expansion(s: &str, enable_extended_globbing: bool) -> (r: bool) ensures r == requires_expansion_spec(s@, enable_extended_globbing) { unimplemented!() }
 ''')
     g = pt.method_anywhere('to_regex_str').r1().r11()
+    g.r13('to_regex_str', 0)
     fn = 'to_regex_str'
     g.sig(fn, ret='res', ensures=[
         C('C04,C08 translator-input-and-anchors', '''match res {
@@ -73,17 +78,24 @@ fn pattern_to_regex_str(pattern: &str, enable_extended_globbing: bool) -> (r: Re
                 + (if strict_suffix_match { seq!['$'] } else { Seq::<char>::empty() }),
     Err(_) => translate_spec(pieces_text(self.pieces@), self.enable_extended_globbing) is Err,
 }''')])
-    g.loop(0, fn_name=fn, iter_name='it', invariant=[
-        C('C04 literal-pieces-escaped', 'current_pattern@ == pieces_text(self.pieces@.take(it.history@.len() as int))'),
-        C('aux', 'it.history@.len() + it.iter.remaining().len() == self.pieces@.len()'),
-        C('aux', 'forall|i: int| 0 <= i < it.history@.len() ==> *(#[trigger] it.history@[i]) == self.pieces@[i]'),
-    ], body_first='let ghost n = it.history@.len() as int;\nproof { assert(*piece == self.pieces@[n]); }\nlet ghost cp0 = current_pattern@;',
+    # the loop over pieces is put in its language-defined loop/next form (R13) so that a `continue` in it stays within Verus's subset
+    g2 = None
+    g.loop(0, fn_name=fn, ensures=[
+        C('C04 all-pieces-escaped', 'current_pattern@ == pieces_text(self.pieces@.take(self.pieces@.len() as int))'),
+    ], invariant_except_break=[
+        C('aux', '0 <= gi && gi + __it.remaining().len() == self.pieces@.len()'),
+        C('aux', 'forall|i: int| 0 <= i < __it.remaining().len() ==> *(#[trigger] __it.remaining()[i]) == self.pieces@[gi + i]'),
+        C('aux', '__it.obeys_prophetic_iter_laws()'),
+        C('C04 literal-pieces-escaped', 'current_pattern@ == pieces_text(self.pieces@.take(gi))'),
+    ], decreases='self.pieces@.len() - gi', body_first='let ghost r0 = __it.remaining();\nlet ghost n = gi;',
        body_last='''proof {
     let hn = self.pieces@.take(n + 1);
     assert(hn.drop_last() =~= self.pieces@.take(n));
     assert(hn.last() == *piece);
     assert(current_pattern@ =~= pieces_text(hn));
 }''')
+    g.before(r'^\s*let mut __it = ', 'let ghost mut gi: int = 0;\nproof { assert(self.pieces@.take(0) =~= Seq::<PatternPiece>::empty()); }', fn_name=fn)
+    g.after_line(r'^\s*None => break,\n\s*\};', 'proof { assert(r0.len() > 0); assert(*piece == *r0[0]); assert(__it.remaining() =~= r0.skip(1)); assert(*piece == self.pieces@[n]); gi = gi + 1; }\nlet ghost cp0 = current_pattern@;', fn_name=fn)
     g.loop(1, fn_name=fn, iter_name='it2', invariant=[
         C('C04 literal-chars-escaped', 'current_pattern@ == cp0 + esc(it2.history@)'),
         C('aux', 'it2.history@ + it2.iter.remaining() == s@'),
